@@ -202,6 +202,118 @@ int main(int argc, char** argv) {
         Px o = f(Px{{dr, dg, db, da}}, Px{{sr, sg, sb, sa}}); dr = o.c[0]; dg = o.c[1]; db = o.c[2]; da = o.c[3]; }); },
       [&](const Px& s, const Px& o, ssize_t, ssize_t) { Px v = f(o, s); return stored(ds, v.c[0], v.c[1], v.c[2], v.c[3]); }, false, "custom_blit(rgba)");
   }
+  // ---- direct pixel access: out_of_range iff outside; exactly pixel (x,y) changes / is reported
+  if (m == "mem_write_pixel" || m == "write_pixel_c" || m == "model_write_pixel") {
+    bool outside = x < 0 || y < 0 || x >= ds.w || y >= ds.h;
+    if (m == "write_pixel_c") { r = (c >> 24) & 0xFF; g = (c >> 16) & 0xFF; b = (c >> 8) & 0xFF; a = c & 0xFF; }
+    Exc e = run([&] { if (m == "write_pixel_c") dst.write_pixel(x, y, c); else dst.write_pixel(x, y, r, g, b, a); });
+    RCHECK((e == OOR) == outside && (e == OOR || e == NONE), "write_pixel(%zd,%zd) on %zdx%zd %s", x, y, ds.w, ds.h, excname(e));
+    return compare(dst, ds, old, [&](ssize_t px, ssize_t py, const Px& o) { return (px == x && py == y) ? stored(ds, r, g, b, a) : o; }, "write_pixel");
+  }
+  if (m == "mem_read_pixel" || m == "read_pixel_c" || m == "model_read_pixel") {
+    bool outside = x < 0 || y < 0 || x >= ds.w || y >= ds.h;
+    Px p{{0, 0, 0, 0}}; uint32_t pc = 0;
+    Exc e = run([&] { if (m == "read_pixel_c") pc = dst.read_pixel(x, y); else dst.read_pixel(x, y, &p.c[0], &p.c[1], &p.c[2], &p.c[3]); });
+    RCHECK((e == OOR) == outside && (e == OOR || e == NONE), "read_pixel(%zd,%zd) on %zdx%zd %s", x, y, ds.w, ds.h, excname(e));
+    if (!outside) { if (m == "read_pixel_c") RCHECK(pc == pack(old[y * ds.w + x]), "read_pixel colour %08x", pc); else RCHECK(p == old[y * ds.w + x], "read_pixel value"); }
+    return compare(dst, ds, old, [&](ssize_t, ssize_t, const Px& o) { return o; }, "read_pixel changed the canvas");
+  }
+  // ---- whole-image transforms
+  auto oldat = [&](ssize_t px, ssize_t py) { return old[py * ds.w + px]; };
+  if (m == "invert" || m == "invert_twice") {
+    Exc e = run([&] { dst.invert(); if (m == "invert_twice") dst.invert(); });
+    RCHECK(e == NONE, "invert %s", excname(e));
+    return compare(dst, ds, old, [&](ssize_t, ssize_t, const Px& o) { return m == "invert_twice" ? o : Px{{dm - o.c[0], dm - o.c[1], dm - o.c[2], ds.alpha ? dm - o.c[3] : dm}}; }, m.c_str());
+  }
+  if (m == "set_alpha_from_mask_color" || m == "set_alpha_from_mask_color_c") {
+    Exc e = run([&] { if (m == "set_alpha_from_mask_color_c") dst.set_alpha_from_mask_color(c); else dst.set_alpha_from_mask_color(r, g, b); });
+    if (m == "set_alpha_from_mask_color_c") { r = (c >> 24) & 0xFF; g = (c >> 16) & 0xFF; b = (c >> 8) & 0xFF; }
+    RCHECK(e == NONE, "set_alpha_from_mask_color %s", excname(e));
+    return compare(dst, ds, old, [&](ssize_t, ssize_t, const Px& o) { return Px{{o.c[0], o.c[1], o.c[2], !ds.alpha ? dm : (o.c[0] == r && o.c[1] == g && o.c[2] == b) ? 0 : dm}}; }, m.c_str());
+  }
+  if (m.rfind("reverse_", 0) == 0) {
+    bool hz = m.find("horizontal") != string::npos, twice = m.find("twice") != string::npos;
+    Exc e = run([&] { for (int i = 0; i < (twice ? 2 : 1); i++) { if (hz) dst.reverse_horizontal(); else dst.reverse_vertical(); } });
+    RCHECK(e == NONE, "%s %s", m.c_str(), excname(e));
+    return compare(dst, ds, old, [&](ssize_t px, ssize_t py, const Px& o) { return twice ? o : hz ? oldat(ds.w - 1 - px, py) : oldat(px, ds.h - 1 - py); }, m.c_str());
+  }
+  // ---- axis-aligned lines
+  if (m.rfind("draw_horizontal_line", 0) == 0 || m.rfind("draw_vertical_line", 0) == 0 || m == "x_h_div1" || m == "x_v_div1") {
+    bool hz = m.find("horizontal") != string::npos || m == "x_h_div1", col = m.size() > 2 && m.substr(m.size() - 2) == "_c";
+    ssize_t lo = (ssize_t)A.u(hz ? "in_x1" : "in_y1"), hi = (ssize_t)A.u(hz ? "in_x2" : "in_y2"), at = (ssize_t)A.u(hz ? "in_y" : "in_x"), dash = (ssize_t)A.u("in_dash");
+    if (m[0] == 'x') { lo = hi = (ssize_t)A.u("in_x"); at = 0; }
+    if ((I)hi - (I)lo > 1000000) { printf("line too long to replay natively\n"); return 2; }
+    if (col) { r = (c >> 24) & 0xFF; g = (c >> 16) & 0xFF; b = (c >> 8) & 0xFF; a = c & 0xFF; }
+    Exc e = run([&] { if (hz) { if (col) dst.draw_horizontal_line(lo, hi, at, dash, c); else dst.draw_horizontal_line(lo, hi, at, dash, r, g, b, a); }
+                      else { if (col) dst.draw_vertical_line(at, lo, hi, dash, c); else dst.draw_vertical_line(at, lo, hi, dash, r, g, b, a); } });
+    RCHECK(e == NONE, "%s %s", m.c_str(), excname(e));
+    Px colour = stored(ds, r, g, b, a);
+    bool solid_inside = dash == 0 && lo >= 0 && at >= 0 && (hz ? (hi < ds.w && at < ds.h) : (hi < ds.h && at < ds.w));
+    for (ssize_t py = 0; py < ds.h; py++) for (ssize_t px = 0; px < ds.w; px++) {
+      Px now = get(dst, px, py), was = oldat(px, py);
+      bool on = hz ? (py == at && px >= lo && px <= hi) : (px == at && py >= lo && py <= hi);
+      RCHECK(on || now == was, "pixel (%zd,%zd) off the segment changed", px, py);
+      RCHECK(now == was || now == colour, "pixel (%zd,%zd) changed to something else than the colour", px, py);
+      RCHECK(!(on && solid_inside) || now == colour, "pixel (%zd,%zd) of a solid in-canvas line is not coloured", px, py);
+    }
+    return 0;
+  }
+  // ---- text: no exception for any byte; clipping invariance against a larger canvas
+  if (m == "draw_text_v") {
+    string text;
+    for (int i = 1; i < 256; i++) { text.push_back((char)i); if (i % 37 == 0) text.push_back('\n'); }
+    x = (ssize_t)A.u("in_x"); y = (ssize_t)A.u("in_y");
+    uint64_t br = A.u("in_br"), bg = A.u("in_bg"), bb = A.u("in_bb"), ba = A.u("in_ba");
+    if (x < -100000 || x > 100000 || y < -100000 || y > 100000) { x %= 64; y %= 64; }
+    const ssize_t M = 24;
+    Image big(ds.w + 2 * M, ds.h + 2 * M, ds.alpha, ds.cw);
+    for (ssize_t py = 0; py < ds.h + 2 * M; py++) for (ssize_t px = 0; px < ds.w + 2 * M; px++) {
+      bool in = px >= M && py >= M && px < M + ds.w && py < M + ds.h;
+      Px o = in ? oldat(px - M, py - M) : Px{{1, 2, 3, 4}};
+      big.write_pixel(px, py, o.c[0], o.c[1], o.c[2], o.c[3]);
+    }
+    Exc e = run([&] { dst.draw_text(x, y, nullptr, nullptr, r, g, b, a, br, bg, bb, ba, "%s", text.c_str()); big.draw_text(x + M, y + M, nullptr, nullptr, r, g, b, a, br, bg, bb, ba, "%s", text.c_str()); });
+    RCHECK(e == NONE, "draw_text %s", excname(e));
+    for (ssize_t py = 0; py < ds.h; py++) for (ssize_t px = 0; px < ds.w; px++)
+      RCHECK(get(dst, px, py) == get(big, px + M, py + M), "text is not clipping-invariant at pixel (%zd,%zd)", px, py);
+    return 0;
+  }
+  // ---- whole-buffer operations
+  if (m == "set_channel_width") {
+    int nw = (int)A.u("in_new_width");
+    if (nw != 8 && nw != 16 && nw != 32 && nw != 64) return 2;
+    Exc e = run([&] { dst.set_channel_width(nw); });
+    RCHECK(e == NONE, "set_channel_width %s", excname(e));
+    RCHECK(dst.get_channel_width() == nw && (ssize_t)dst.get_width() == ds.w && (ssize_t)dst.get_height() == ds.h && dst.get_has_alpha() == ds.alpha, "shape after set_channel_width");
+    auto conv = [&](uint64_t v) { if (nw == ds.cw) return v; if (nw < ds.cw) return v >> (ds.cw - nw); uint64_t o = 0; for (int s = 0; s < nw; s += ds.cw) o |= v << s; return o & maskw(nw); };
+    Shape ns = ds; ns.cw = nw;
+    return compare(dst, ns, old, [&](ssize_t, ssize_t, const Px& o) { return Px{{conv(o.c[0]), conv(o.c[1]), conv(o.c[2]), ds.alpha ? conv(o.c[3]) : maskw(nw)}}; }, "set_channel_width");
+  }
+  if (m == "set_has_alpha") {
+    bool na = A.u("in_new_alpha") != 0;
+    Exc e = run([&] { dst.set_has_alpha(na); });
+    RCHECK(e == NONE, "set_has_alpha %s", excname(e));
+    RCHECK(dst.get_has_alpha() == na && dst.get_channel_width() == ds.cw && (ssize_t)dst.get_width() == ds.w && (ssize_t)dst.get_height() == ds.h, "shape after set_has_alpha");
+    Shape ns = ds; ns.alpha = na;
+    return compare(dst, ns, old, [&](ssize_t, ssize_t, const Px& o) { return Px{{o.c[0], o.c[1], o.c[2], (na && ds.alpha) ? o.c[3] : dm}}; }, "set_has_alpha");
+  }
+  if (m == "copy_ctor" || m == "copy_assign") {
+    Image cp(3, 2, false, 8);
+    Exc e = run([&] { if (m == "copy_ctor") { Image c2(src); cp = std::move(c2); } else cp = src; });
+    RCHECK(e == NONE, "copy %s", excname(e));
+    RCHECK(cp == src && cp.get_data() != src.get_data(), "copy differs from the original or shares its buffer");
+    if (ss.w > 0 && ss.h > 0) { Px o = get(src, 0, 0); cp.write_pixel(0, 0, ~o.c[0], ~o.c[1], ~o.c[2], ~o.c[3]); RCHECK(get(src, 0, 0) == o, "writing to the copy changed the original (shallow copy)"); }
+    return 0;
+  }
+  if (m == "move_ctor" || m == "move_assign") {
+    const void* buf = src.get_data(); Image ref(src);
+    Image mv(2, 2, false, 8);
+    if (m == "move_ctor") { Image m2(std::move(src)); RCHECK(m2 == ref && m2.get_data() == buf, "moved-to image"); }
+    else { mv = std::move(src); RCHECK(mv == ref && mv.get_data() == buf, "moved-to image"); }
+    RCHECK(src.get_width() == 0 && src.get_height() == 0 && !src.get_has_alpha() && src.get_channel_width() == 8 && src.get_data() == nullptr, "moved-from image is not the empty canvas");
+    return 0;
+  }
+  if (m == "widen_narrow") return 0;
   printf("unknown mode %s\n", m.c_str());
   return 2;
 }
